@@ -406,6 +406,10 @@ class Ctx:
                         if t not in rej:
                             rej[t] = (0, v)
             for i in range(1, len(chunk) + 1):
+                # a trace spec that branches (several readings of an ambiguous event) accepts a trace as soon as
+                # one branch consumes it completely; the branches that got stuck do not count
+                if i in acc:
+                    continue
                 if i in rej:
                     rejected.append((b0 + i - 1, rej[i][0], rej[i][1]))
                 elif i not in acc:
